@@ -41,6 +41,38 @@ func (s *c12schema) mapper() *testMapper {
 	return m
 }
 
+// cachingMapper hands out the very same maps on every call, like a schema
+// cache would.
+type cachingMapper struct{ m *testMapper }
+
+func (c *cachingMapper) FieldDimensions(mm *influxql.Measurement) (map[string]influxql.DataType, map[string]struct{}, error) {
+	f := c.m.fields[mm.Name]
+	if f == nil {
+		f = map[string]influxql.DataType{}
+		c.m.fields[mm.Name] = f
+	}
+	if c.m.tagSets == nil {
+		c.m.tagSets = map[string]map[string]struct{}{}
+	}
+	d := c.m.tagSets[mm.Name]
+	if d == nil {
+		d = map[string]struct{}{}
+		for _, t := range c.m.tags[mm.Name] {
+			d[t] = struct{}{}
+		}
+		c.m.tagSets[mm.Name] = d
+	}
+	return f, d, nil
+}
+
+func (c *cachingMapper) MapType(mm *influxql.Measurement, field string) influxql.DataType {
+	return c.m.MapType(mm, field)
+}
+
+func (c *cachingMapper) CallType(name string, args []influxql.DataType) (influxql.DataType, error) {
+	return c.m.CallType(name, args)
+}
+
 // typeRank orders types by the precedence float > integer > unsigned > string > boolean > tag.
 func typeRank(t influxql.DataType) int {
 	switch t {
@@ -575,6 +607,25 @@ func c12One(c *Ctx, idx int, local map[string]int64) {
 	}
 	if len(got.Dimensions) != len(sel.Dimensions) {
 		local["dimension-expansions"]++
+	}
+	// a mapper that hands out its own (cached) maps must find them untouched,
+	// and a second call through it must give the same answer
+	pm := sch.mapper()
+	cached := &cachingMapper{m: pm}
+	cached.FieldDimensions(&influxql.Measurement{Name: "m0"})
+	for i := 0; i < 6; i++ {
+		cached.FieldDimensions(&influxql.Measurement{Name: fmt.Sprintf("m%d", i)})
+	}
+	snap := fmt.Sprint(pm.fields, pm.tagSets)
+	o1, e1 := sel.RewriteFields(cached)
+	o2, e2 := sel.RewriteFields(cached)
+	if after := fmt.Sprint(pm.fields, pm.tagSets); after != snap {
+		r.Violation("schema-modified", det("RewriteFields changed the maps handed out by the schema mapper: before "+trunc(snap, 300)+" after "+trunc(after, 300)))
+		return
+	}
+	if (e1 == nil) != (e2 == nil) || (e1 == nil && (dumpOf(o1) != dumpOf(o2) || dumpOf(o1) != dumpOf(got))) {
+		r.Violation("not-deterministic", det("calls through a mapper that caches its maps differ from the first answer"))
+		return
 	}
 	// determinism: repeated calls with fresh mapper maps
 	first := dumpOf(func() *influxql.SelectStatement { o, _ := sel.RewriteFields(sch.mapper()); return o }())
